@@ -130,7 +130,7 @@ func (msg Message) generateDecodeBebop(w *iohelp.ErrorWriter, settings GenerateS
 		writeLine(w, "\t\tcase %d:", fd.num)
 		name := exposeName(fd.Name, settings)
 		writeLine(w, "\t\t\tbbp.%[1]s = new(%[2]s)", name, fd.FieldType.goString(settings))
-		writeMessageFieldUnmarshaller("bbp."+name, fd.FieldType, w, settings, 3)
+		writeMessageFieldUnmarshaller("&(*bbp."+name+")", fd.FieldType, w, settings, 3)
 	}
 	// ref: https://github.com/RainwayApp/bebop/wiki/Wire-format#messages, final paragraph
 	// we're allowed to skip parsing all remaining fields if we see one that we don't know about.
@@ -197,23 +197,26 @@ func (msg Message) Generate(w io.Writer, settings GenerateSettings) {
 }
 
 func writeMessageFieldUnmarshaller(name string, typ FieldType, w *iohelp.ErrorWriter, settings GenerateSettings, depth int) {
+	// name is always of the form "&<addressable expression>", so that the
+	// receiver derived from it stays correct however deeply containers nest.
+	iName := depthName("i", depth)
 	if typ.Array != nil {
 		writeLineWithTabs(w, "%RECV = make([]%TYPE, iohelp.ReadUint32(r))", depth, name, typ.Array.goString(settings))
 		if typ.Array.Simple == typeByte {
 			writeLineWithTabs(w, "r.Read(%RECV)", depth, name)
 		} else {
-			writeLineWithTabs(w, "for i := range %RECV {", depth, name)
-			writeMessageFieldUnmarshaller("("+name+")[i]", *typ.Array, w, settings, depth+1)
+			writeLineWithTabs(w, "for "+iName+" := range %RECV {", depth, name)
+			writeMessageFieldUnmarshaller("&("+name[1:]+"["+iName+"])", *typ.Array, w, settings, depth+1)
 			writeLineWithTabs(w, "}", depth)
 		}
 	} else if typ.Map != nil {
 		lnName := depthName("ln", depth)
 		writeLineWithTabs(w, lnName+" := iohelp.ReadUint32(r)", depth)
 		writeLineWithTabs(w, "%RECV = make("+typ.Map.goString(settings)+")", depth, name)
-		writeLineWithTabs(w, "for i := uint32(0); i < "+lnName+"; i++ {", depth, name)
+		writeLineWithTabs(w, "for "+iName+" := uint32(0); "+iName+" < "+lnName+"; "+iName+"++ {", depth, name)
 		ln := getLineWithTabs(settings.typeUnmarshallers[typ.Map.Key], depth+1, "&"+depthName("k", depth))
 		w.SafeWrite([]byte(strings.Replace(ln, "=", ":=", 1)))
-		writeMessageFieldUnmarshaller("("+name+")["+depthName("k", depth)+"]", typ.Map.Value, w, settings, depth+1)
+		writeMessageFieldUnmarshaller("&("+name[1:]+"["+depthName("k", depth)+"])", typ.Map.Value, w, settings, depth+1)
 		writeLineWithTabs(w, "}", depth)
 	} else {
 		simpleTyp := typ.Simple
